@@ -571,6 +571,10 @@ pub fn pipe_case(rng: &mut Rng, src: &Sources, i: usize, tag: &str) -> String {
             }
             let nl = lines.len();
             e.condition.set_phoneme_alignment_flag(true);
+            // with alignment on the speaking rate must have no effect: every aligned case sets a speed other than 1 (the random
+            // condition leaves it at 1 half of the time; a shifted random stream once left every aligned case of C09's ten
+            // pipeline cases at speed 1 and the seeded change C09h — label times divided by the speed — slipped through)
+            e.condition.set_speed(if (i / 4) % 2 == 0 { rng.log_uniform(0.4, 0.9) } else { rng.log_uniform(1.2, 3.0) });
             let per = e.condition.get_fperiod() as f64 * 1e7 / e.condition.get_sampling_frequency() as f64;
             let mut t = 0.0f64;
             let unstamped_tail = if nl >= 3 { rng.range(2, nl - 1) } else { 0 };
